@@ -745,7 +745,7 @@ class ComplexFormatFunction(FormatFunction):
             raise ValueError('The length of subscript and raw_shape must match')
 
         reverse_axes = () if self.reverse_axes is None else self.reverse_axes
-        transpose_axes = tuple(range(len(self.formatted_shape))) if self.transpose_axes is None else \
+        transpose_axes = tuple(range(len(self.raw_shape))) if self.transpose_axes is None else \
             self.transpose_axes
 
         # we will reorder from raw order into formatted order, using the transpose
@@ -753,14 +753,27 @@ class ComplexFormatFunction(FormatFunction):
         # definition (in raw order)
         out = []
         for i, index in enumerate(transpose_axes):
-            # raw order @ index corresponds to formatted order @ i
+            # raw order @ index corresponds to order @ i after the transpose,
+            # which is where band_dimension is counted
             rev = (index in reverse_axes)
-            shape_limit = self.raw_shape[index]  # also self.formatted_shape[i]
-            if index == self.band_dimension and self.formatted_ndim < self.raw_ndim:
+            shape_limit = self.raw_shape[index]
+            if i == self.band_dimension and self.formatted_ndim < self.raw_ndim:
                 # the band dimension has collapsed, so omit anything here
                 continue
-            else:
-                out.append(reformat_slice(subscript[index], shape_limit, rev))
+            temp_sl = reformat_slice(subscript[index], shape_limit, rev)
+            if i == self.band_dimension:
+                # the band dimension is not flattened, raw entries 2k and 2k+1 make
+                # formatted entry k: the formatted entries holding the raw ones
+                if temp_sl.step == 1:
+                    temp_sl = slice(temp_sl.start//2, (temp_sl.stop + 1)//2, 1)
+                elif temp_sl.step == -1:
+                    stop = -1 if temp_sl.stop is None else (temp_sl.stop + 1)//2 - 1
+                    temp_sl = slice(temp_sl.start//2, None if stop < 0 else stop, -1)
+                else:
+                    raise ValueError(
+                        'Slicing along the complex dimension and applying this format function\n\t'
+                        'is only only permitted using step +/-1 in raw coordinates')
+            out.append(temp_sl)
         return tuple(out)
 
     def _forward_magnitude_theta(
